@@ -6,13 +6,15 @@
    refs: every reference citation of either run with its span, and a witness: an earlier full case
    citation (index, end of its span) one of whose valid names occurs in the reference's text at
    offset off (TLC verifies the slice); n = length of the cleaned text, text = its code points. *)
-EXTENDS Integers, Sequences, FiniteSets, Json, IOUtils, TLC
+EXTENDS Integers, Sequences, FiniteSets, Json, IOUtils, TLC, Hits
 Traces == JsonDeserialize(IOEnv.TRACE_FILE)
 NT == Len(Traces)
 VARIABLES tid, bucket
 NB == 64
 T(t) == Traces[t]
-Clauses == {"C04.noraise", "C19.sameplain", "C19.refoffsets", "C19.refafter", "C19.refname"}
+ClauseSeq == <<"C04.noraise", "C19.sameplain", "C19.refoffsets", "C19.refafter", "C19.refname">>
+Clauses == {ClauseSeq[ci] : ci \in DOMAIN ClauseSeq}
+ASSUME PrintT(<<"CLAUSES", ToJson(ClauseSeq)>>)
 Holds(cl, t) ==
   LET tr == T(t) IN
   IF tr.raised # "" THEN cl # "C04.noraise"
@@ -29,6 +31,14 @@ Holds(cl, t) ==
 TInit == tid = 0 /\ bucket \in 0..(NB - 1)
 TNext == tid = 0 /\ (\E t \in {x \in 1..NT : x % NB = bucket} : tid' = t) /\ UNCHANGED bucket
 TSpec == TInit /\ [][TNext]_<<tid, bucket>>
-Judge == tid # 0 => \A cl \in Clauses : Holds(cl, tid) \/ PrintT(<<"FAIL", tid, cl>>)
+Exercised(cl, t) ==
+  LET tr == T(t) IN
+  IF cl = "C04.noraise" THEN TRUE
+  ELSE IF tr.raised # "" THEN FALSE
+  ELSE CASE cl = "C19.sameplain" -> tr.markup_nonref # <<>> \/ tr.plain_nonref # <<>>
+    [] cl \in {"C19.refoffsets", "C19.refafter", "C19.refname"} -> tr.refs # <<>>
+    [] OTHER -> FALSE
+Judge == tid # 0 => (/\ \A cl \in Clauses : Holds(cl, tid) \/ PrintT(<<"FAIL", tid, cl>>)
+   /\ PrintT(<<"HIT", tid, Mask([ci \in DOMAIN ClauseSeq |-> Exercised(ClauseSeq[ci], tid)])>>))
 Done == tid # 0 => PrintT(<<"DONE", tid>>)
 =============================================================================
